@@ -663,6 +663,9 @@ pub enum FailKind {
   Other,
   BrokenPipe,
   PermissionDenied,
+  /// a momentarily busy non-blocking sink (with `transient`: it recovers)
+  WouldBlock,
+  TimedOut,
 }
 
 #[derive(Clone, Debug, Serialize, Deserialize, PartialEq, Eq, Hash)]
